@@ -535,7 +535,13 @@ class ClientWorldObjectManager:
                 cached_obj = normalize_object_update_compressed_data(cached_obj_data)
                 cached_obj["UpdateFlags"] = update_flags
                 cached_obj["RegionHandle"] = handle
-                self._track_new_object(region_state, Object(**cached_obj), msg)
+                # Same as the other update types, if we already have an object with this
+                # FullID (stale CRC, or it came from elsewhere) then update it in place.
+                existing_obj = self.lookup_fullid(cached_obj["FullID"])
+                if existing_obj:
+                    self._update_existing_object(existing_obj, cached_obj, ObjectUpdateType.UPDATE, msg)
+                else:
+                    self._track_new_object(region_state, Object(**cached_obj), msg)
                 continue
 
             # Don't know about it and wasn't cached.
